@@ -26,6 +26,56 @@ def LockFacts.ok (F : LockFacts) : Bool :=
   F.updConf == some .W && F.flushConf == some .W && F.readConf.isSome &&
   F.setDaysConf == some .W && F.putConfConf == some .W
 
+/-- … and `handleStatsReset` as well (true of the tree since the fix that
+takes `confMu` there). -/
+def LockFacts.okAll (F : LockFacts) : Bool := F.ok && F.resetConf == some .W
+
+/-! ### from the regenerated facts (AGH/Gen/C09Locks.lean, written by extract/cmd/c09)
+
+A fact is `(callee, function, confMu, currMu)` in number codes (see the header
+of the generated file); modes 0 none, 1 RLock, 2 Lock. -/
+
+def modeOfCode : Nat → Option Mode
+  | 1 => some .R
+  | 2 => some .W
+  | _ => none
+
+/-- The weaker of two. -/
+def meetMode : Option Mode → Option Mode → Option Mode
+  | some .W, m => m
+  | m, some .W => m
+  | some .R, some .R => some .R
+  | _, _ => none
+
+abbrev RawFact := Nat × Nat × Nat × Nat
+
+/-- Weakest mode over the selected facts; `none` if there is none. -/
+def rawOver (facts : List RawFact) (sel : RawFact → Bool) (pick : RawFact → Nat) : Option Mode :=
+  match facts.filter sel with
+  | [] => none
+  | fs => fs.foldl (fun m f => meetMode m (modeOfCode (pick f))) (some .W)
+
+def LockFacts.ofRaw (facts : List RawFact) : LockFacts :=
+  let conf : RawFact → Nat := fun f => f.2.2.1
+  let curr : RawFact → Nat := fun f => f.2.2.2
+  { updConf := rawOver facts (fun f => f.1 == 1) conf
+    updCurr := rawOver facts (fun f => f.1 == 1) curr
+    flushConf := rawOver facts (fun f => f.1 == 2) conf
+    flushCurr := rawOver facts (fun f => f.1 == 2) curr
+    -- every getData, and every loadUnits outside getData
+    readConf := rawOver facts (fun f => f.1 == 3 || (f.1 == 4 && f.2.1 != 4)) conf
+    -- the current unit's serialize inside loadUnits
+    loadCurr := rawOver facts (fun f => f.1 == 5 && f.2.1 == 5) curr
+    setDaysConf := rawOver facts (fun f => f.1 == 6) conf
+    -- assignments to limit / enabled outside setLimit (locked by its caller) and New
+    putConfConf := rawOver facts (fun f => (f.1 == 9 || f.1 == 10) && f.2.1 != 10 && f.2.1 != 9) conf
+    clearCurr := rawOver facts (fun f => f.1 == 8 && f.2.1 == 11) curr
+    -- clear() outside setLimit
+    resetConf := rawOver facts (fun f => f.1 == 7 && f.2.1 != 10) conf }
+
+/-- No Lock without its deferred Unlock. -/
+def rawClean (facts : List RawFact) : Bool := facts.all fun f => f.1 != 11
+
 /-! ### from the extracted fact strings -/
 
 /-- `call:add@Update:confMu.Lock+currMu.Lock` ↦ `confMu.Lock+currMu.Lock` -/
@@ -35,13 +85,6 @@ def heldMode (mu : String) (held : List String) : Option Mode :=
   if held.contains (mu ++ ".Lock") then some .W
   else if held.contains (mu ++ ".RLock") then some .R
   else none
-
-/-- The weaker of two. -/
-def meetMode : Option Mode → Option Mode → Option Mode
-  | some .W, m => m
-  | m, some .W => m
-  | some .R, some .R => some .R
-  | _, _ => none
 
 /-- The weakest mode of `mu` over all facts selected by `sel`; `none` if there is no such fact. -/
 def modeOver (facts : List String) (sel : String → Bool) (mu : String) : Option Mode :=
